@@ -7,7 +7,7 @@ import ast
 from ..index import AnalysisError
 from ..cfg import walk_no_nested, iter_stmts
 from ..fieldflow import FuncFlow, names_in
-from .common import visitor_transformer, check_field_flow, construct_of, cls_construct
+from .common import visitor_transformer, check_field_flow, construct_of, cls_construct, check_changed_flag
 
 MOD = "jaqalpaq.core.circuitbuilder"
 BUILDER = f"{MOD}.Builder"
@@ -110,12 +110,26 @@ def run(ctx, rep):
             rep.ok("C07.1", cons, "no nested argument form consults the context", keyfn.loc())
             continue
         recursive = False
+        partial = None
         for f in consulters:
             for n in walk_no_nested(f.node):
-                if isinstance(n, ast.Call) and isinstance(n.func, ast.Name) and n.func.id == f.name and f.parent:
+                is_rec = (isinstance(n, ast.Call) and isinstance(n.func, ast.Name) and n.func.id == f.name and f.parent) or (
+                    isinstance(n, ast.Call) and isinstance(n.func, ast.Attribute) and n.func.attr == f.name and not f.parent)
+                if not is_rec or not n.args:
+                    continue
+                a0 = n.args[0]
+                # the recursive call must be applied to every element of the nested form
+                covers_all = False
+                if isinstance(a0, ast.Name):
+                    for m in walk_no_nested(f.node):
+                        if isinstance(m, ast.comprehension) and isinstance(m.target, ast.Name) and m.target.id == a0.id and isinstance(m.iter, ast.Name) and m.iter.id in f.all_params and not m.ifs:
+                            covers_all = True
+                        if isinstance(m, ast.For) and isinstance(m.target, ast.Name) and m.target.id == a0.id and isinstance(m.iter, ast.Name) and m.iter.id in f.all_params:
+                            covers_all = True
+                if covers_all:
                     recursive = True
-                if isinstance(n, ast.Call) and isinstance(n.func, ast.Attribute) and n.func.attr == f.name and not f.parent:
-                    recursive = True
+                else:
+                    partial = n
         # or: the consultation is applied to a flattened view of the arguments
         flattened = False
         for f in [keyfn]:
@@ -125,7 +139,13 @@ def run(ctx, rep):
                     if "flatten" in nm or "walk" in nm:
                         flattened = True
         if recursive or flattened:
-            rep.ok("C07.1", cons, "the context consultation recurses into nested argument forms", consulters[0].loc())
+            rep.ok("C07.1", cons, "the context consultation recurses into every element of nested argument forms", consulters[0].loc())
+        elif partial is not None:
+            rep.violation(
+                "C07.1", cons,
+                f"the key looks only at `{ast.unparse(partial.args[0])}` of a nested argument, but every element of a nested form (array name and index) is looked up in the context while building: identical text with a different binding of the other element shares one gate statement",
+                f"{consulters[0].path}:{partial.lineno}", witness="let k 0\nregister r[2]\nmacro m k { Px r[k] }\nPx r[k]",
+            )
         else:
             rep.violation(
                 "C07.1", cons,
@@ -233,6 +253,7 @@ def run(ctx, rep):
         (MACRO, "body", "required", R),
         (MACRO, "_ideal_unitary", "exempt", "macros have no unitary"),
     ])
+    check_changed_flag(ctx, rep, "C07.3", tr)
     for c in ix.mro(relinker):
         if c == "jaqalpaq.core.algorithm.visitor.Visitor":
             continue
